@@ -40,6 +40,17 @@ def corpus(rng, n_each):
     rng.shuffle(texts)
     bad = ['select', 'select from', 'select * from t where', "select 'abc", 'selec 1', 'select 1 1 1', 'create model', 'select a->>b',
            "select -'x'", 'CREATE SKILL s USING a=1', 'select * from t limit x', '((((', 'insert into', 'update t set', 'drop']
+    # rejected inputs in families that stop the parser in the same state on the same kind of token but differ afterwards: what one
+    # of them is told must not depend on which of them was rejected first
+    bad += ['create m predict x', 'create t (a int)', 'create tabl t (a int)', 'create v as (select 1)', 'create e from h', 'create j (select 1)',
+            'drop e', 'drop t if exists', 'drop m m1', 'show x', 'show x from y', 'show x like z', 'alter x', 'insert x', 'insert x values (1)',
+            'start x', 'select * from t group x', 'select * from t order x', 'select a from t where a is x', 'update t x', 'update t x = 1',
+            'select * from a join b on x = y left z', 'select * from a join b on x = y left z on q', 'create or t', 'create or m predict y']
+    try:
+        import c19
+        bad += [t for t in c19.texts(random.Random(rng.random()), 'quick') if '\n' not in t][:n_each]
+    except Exception:
+        pass
     for s in texts[:n_each] + bad:
         items.append(('parse', s, 'mindsdb'))
     for d in ('mysql', 'sqlite'):
@@ -172,7 +183,16 @@ sys.path.insert(0, '/verif/harness'); sys.path.insert(0, '/repo')
 import c20
 rng = random.Random(int(sys.argv[1]))
 items = c20.corpus(rng, int(sys.argv[2]))
-res = [c20.run_one(it) for it in items]
+mode = sys.argv[3] if len(sys.argv) > 3 else 'fwd'
+order = list(range(len(items)))
+if mode == 'rev':
+    order.reverse()
+elif mode == 'shuffle':
+    random.Random(99).shuffle(order)
+got = {}
+for i in order:
+    got[i] = c20.run_one(items[i])
+res = [got[i] for i in range(len(items))]
 h = hashlib.sha256('\x00'.join(res).encode('utf-8', 'replace')).hexdigest()
 import gen_tables
 tabs = {}
@@ -189,8 +209,18 @@ for d in ('mindsdb', 'mysql', 'sqlite'):
         tabs[d] = hashlib.sha256(json.dumps(canon, sort_keys=True).encode()).hexdigest()
     except Exception as e:
         tabs[d] = 'error:' + type(e).__name__ + str(e)[:80]
-print(json.dumps({'results': h, 'tables': tabs, 'per_item': [hashlib.sha256(r.encode('utf-8', 'replace')).hexdigest()[:12] for r in res]}))
+print(json.dumps({'results': h, 'tables': tabs, 'per_item': [hashlib.sha256(r.encode('utf-8', 'replace')).hexdigest()[:12] for r in res],
+                  'per_item_sorted_suggestions': [hashlib.sha256(c20.sort_suggestions(r).encode('utf-8', 'replace')).hexdigest()[:12] for r in res]}))
 '''
+
+
+def sort_suggestions(text):
+    """the same result with the items of a 'Possible inputs: "A", "B"' line put in alphabetical order"""
+    import re
+
+    def fix(m):
+        return m.group(1) + ', '.join(sorted(re.findall(r'"(?:[^"]|"(?=[^,]))*"', m.group(2))))
+    return re.sub(r'(Possible inputs: )(.*)$', fix, text, flags=re.M)
 
 
 def run(tier, seed, replay=None):
@@ -301,12 +331,36 @@ def run(tier, seed, replay=None):
             outs[hs] = json.loads(r.stdout.strip().split('\n')[-1])
         except Exception:
             outs[hs] = {'results': 'worker failed: ' + r.stderr[-300:], 'tables': {}, 'per_item': []}
+    # 3b. fresh processes that make the same calls in another order (what a call returns must not depend on what was called, or
+    # what failed, before it -- also not through anything remembered for the life of the process)
     base = outs['0']
+    for mode in ('rev', 'shuffle'):
+        env = dict(os.environ, PYTHONHASHSEED='0', PYTHONPATH='/repo:/verif/harness', PYTHONDONTWRITEBYTECODE='1')
+        r = subprocess.run(['/venv/bin/python', str(wfile), str(seed), str(n_each // 2), mode], capture_output=True, text=True, env=env, timeout=1200)
+        try:
+            o2 = json.loads(r.stdout.strip().split('\n')[-1])
+        except Exception:
+            o2 = {'per_item': [], 'results': 'worker failed: ' + r.stderr[-300:]}
+        idx = [i for i, (a, b) in enumerate(zip(base.get('per_item', []), o2.get('per_item', []))) if a != b]
+        R.obligation(f'same results in a fresh process that makes the calls in {"reverse" if mode == "rev" else "shuffled"} order', not idx and bool(o2.get('per_item')))
+        if idx or not o2.get('per_item'):
+            items2 = corpus(random.Random(seed), n_each // 2)
+            for i in idx[:2]:
+                report('process_order', items2[i], f'hash of the result when the calls are made in corpus order: {base["per_item"][i]}',
+                       f'in {mode} order: {o2["per_item"][i]}', {'replay_hint': 'run the corpus of c20.corpus in both orders in fresh processes'})
+            if not idx:
+                R.violation({'what': 'order worker failed', 'detail': str(o2.get('results'))[:300], 'theorem': 'C20 process-order experiment'}, nofail=True)
     hdiff = [hs for hs in outs if outs[hs]['results'] != base['results'] or outs[hs]['tables'] != base['tables']]
     R.obligation('same results, same production set and same conflict resolutions in fresh processes under several PYTHONHASHSEED values', not hdiff)
     for hs in hdiff[:2]:
         items2 = corpus(random.Random(seed), n_each // 2)
         idx = [i for i, (a, b) in enumerate(zip(base['per_item'], outs[hs]['per_item'])) if a != b]
+        idx_s = [i for i, (a, b) in enumerate(zip(base.get('per_item_sorted_suggestions', []), outs[hs].get('per_item_sorted_suggestions', []))) if a != b]
+        fd = [f for f in findings if f['classifier'].get('kind') == 'hashseed_suggestion_order']
+        if fd and idx and not idx_s and outs[hs]['tables'] == base['tables'] and all(items2[i][0] == 'parse' for i in idx):
+            # the only differences are rejected inputs whose messages list the same suggestions in another order
+            R.known_finding(f'{fd[0]["id"]}: {fd[0]["what"]}')
+            continue
         R.violation({'what': f'results or tables differ between PYTHONHASHSEED=0 and PYTHONHASHSEED={hs}',
                      'tables_0': base['tables'], f'tables_{hs}': outs[hs]['tables'],
                      'first_differing_items': [list(items2[i]) for i in idx[:3]], 'worker': outs[hs]['results'][:300]})
